@@ -28,7 +28,10 @@ DefT == [n |-> "t", ch |-> <<Text(<<S("["), P(Id("y")), S("|"), P(Mem(Id("z"), "
 FileD(root) == << [path |-> "a", imports |-> <<>>, wxs |-> <<>>, defs |-> <<DefT>>, root |-> root] >>
 TData == {EV(Obj(<<Named("y", EA), Named("z", Id("o"))>>)), EV(Obj(<<Named("y", Mem(Id("o"), "p"))>>)),
           EV(Obj(<<Spread(Id("o")), Named("y", EB)>>)), EV(Obj(<<Named("y", Idx(Id("l"), Lit("0"))), Named("z", Obj(<<Named("p", EA)>>))>>)),
-          EV(Obj(<<Short("o"), Named("y", Cond(EA, EB, Lit("'x'")))>>)), EV(Obj(<<Named("z", Id("o")), Named("y", Arr(<<Item(EA)>>))>>))}
+          EV(Obj(<<Short("o"), Named("y", Cond(EA, EB, Lit("'x'")))>>)), EV(Obj(<<Named("z", Id("o")), Named("y", Arr(<<Item(EA)>>))>>)),
+          (* data that is not an object literal: an expression yielding the object (a lone identifier must be written in
+             parentheses - `{{ o }}` is the literal `{o: o}`), a conditional, a string (no data at all) *)
+          EV(Id("o")), EV(Cond(EA, Id("o"), Obj(<<Named("y", EB)>>))), EV(Lit("'abc'"))}
 UD == {FileD(<<TmplIs(SV("t"), d)>>) : d \in TData}
       \cup {FileD(<<TmplIs(EV(Cond(EA, Lit("'t'"), Lit("''"))), EV(Obj(<<Named("y", EB)>>)))>>),
             FileD(<<For(EV(Id("l")), "item", "index", "", <<TmplIs(SV("t"), EV(Obj(<<Named("y", Id("item")), Named("z", Id("o"))>>)))>>)>>),
